@@ -13,14 +13,18 @@ pub open spec fn dec(n: nat) -> Seq<char>
     if n < 10 { seq![digit_c(n as int)] } else { dec(n / 10).push(digit_c((n % 10) as int)) }
 }
 
-/// the decimal text `Display` prints for a u32
-pub open spec fn u32_text(n: u32) -> Seq<char> { dec(n as nat) }
+/// the decimal text `Display` prints for a u32 (closed, so that units that only name it do not pay for unfolding `dec`)
+pub closed spec fn u32_text(n: u32) -> Seq<char> { dec(n as nat) }
+pub proof fn lemma_u32_text(n: u32)
+    ensures u32_text(n) == dec(n as nat)
+{
+}
 
 // TRUSTED[u32-to-string-decimal]: `n.to_string()` of a u32 is its decimal text without sign or padding (std: Display for integers; vstd
 // leaves to_string_from_display_ensures uninterpreted for integers).
 pub broadcast axiom fn axiom_u32_to_string(n: &u32, res: String)
     requires #[trigger] to_string_from_display_ensures::<u32>(n, res),
-    ensures res@ == dec(*n as nat);
+    ensures res@ == u32_text(*n);
 
 // TRUSTED[u64-to-string-decimal]: `n.to_string()` of a u64 is its decimal text without sign or padding (std: Display for
 // integers; vstd leaves to_string_from_display_ensures uninterpreted for integers).
